@@ -75,5 +75,7 @@ def plan(tier):
            stubs=["in-memory FS"]),
         CH("zoo", "harness.c02", "grammar", [f"0:0,1:{s},2:{r}" for s in range(2) for r in range(3)], timeout=t,
            desc="generator + file creation over the model zoo", stubs=["in-memory FS"]),
+        CH("reexport_choice", "harness.c08", "shortest_reexport", [f"0:{a},1:{b}" for a in range(2) for b in range(2)], timeout=t,
+           desc="shortest-re-export selection never raises (name / alias / star / alias+star imports in 2-3 packages)"),
         CH("cli", "harness.c10", "api_file_name", [""], timeout=t, desc="API file written before generation; stage order"),
     ]
